@@ -239,6 +239,11 @@ def run(case):
         if best == "skip" or best is None:
             return
         tolb = 1e-6 * (1 + abs(best))
+        if tot > best + tolb and not variant.startswith("noise") and variant != "solve_twice":
+            o_np = drivers.objective_without_presolve(dict(case, cls=cls, kw=kw), G)
+            if o_np["solved"] and o_np["obj"] is not None and o_np["obj"] <= best + tolb:
+                tags["highs_presolve_wrong_optimum"] += 1
+                return
         if tot > best + tolb:
             kind = "mpe_not_optimal"
             if cyc:
